@@ -14,6 +14,7 @@ LEVEL = 'proof'
 THEORIES = ['theories/L5Cover/BoxesProofs.vo',
             'theories/L5Cover/ListExprProofs.vo',
             'theories/L5Cover/ListExprNorm.vo',
+            'theories/L5Cover/ListExprTotal.vo',
             'theories/L0Bits/Bits.vo']
 
 HEADER = cq.HEADER + 'From Omega Require Import L5Cover.ListExpr.\n'
